@@ -37,6 +37,7 @@ func propC10(c *Ctx) {
 	c.ruleExpandedTree()
 	c.ruleWalkEveryKind("C10-WALK-EVERY-KIND")
 	c.ruleExplicitFlagWriters("C10-EXPLICIT-FLAG-WRITERS") // the expansion pass reads the flag again
+	c.ruleDirectivesReadOnlyInBuild("C10-DIRECTIVES-READ-ONLY")
 }
 
 // ruleValueReceiverWrites: a method with a value receiver works on a copy of the struct, but the copy shares every map,
@@ -1355,4 +1356,81 @@ func (c *Ctx) kindSignature(h *Fn, enumT types.Type, k *types.Const) string {
 	}
 	sort.Strings(ks)
 	return strings.Join(ks, "; ")
+}
+
+// ---------- directives are not written after the tree is built ----------
+
+// ruleDirectivesReadOnlyInBuild: when the catalog is built, the directive tree is final. The copies that the expansion
+// of PASTE makes share the parameter maps (and the body coordinates) of the macro's directives, so a handler that
+// writes into "its" directive - sets a parameter, an annotation - writes into every other copy of the same macro
+// directive as well: the second call of a macro meets a directive that the first call has changed.
+func (c *Ctx) ruleDirectivesReadOnlyInBuild(rule string) {
+	r := c.R
+	r.Rule(rule, "the handlers of the dispatch table and everything they reach in the library never write a directive: no call of a pointer-receiver method of directive.Directive (SetNamedParameter, AppendUnnamedParameter, AppendParameter, AppendChild) and no assignment to a field of a Directive - pasted copies of one macro directive share their parameter maps, so a write made for one call of a macro is seen by the next", 1)
+	disp := c.dispatchTable()
+	if len(disp) < 10 {
+		r.Undecided(rule, "anchor", "dispatch table not found", "")
+		return
+	}
+	dirT := prog.ModulePath + "/directive.Directive"
+	seen := map[*types.Func]bool{}
+	var fns []*Fn
+	var kinds []string
+	for k := range disp {
+		kinds = append(kinds, k)
+	}
+	sort.Strings(kinds)
+	for _, k := range kinds {
+		if h := c.fnOf(disp[k]); h != nil {
+			for _, g := range c.reachableAcrossLib(h) {
+				if !seen[g.Obj] && g.Pkg.PkgPath != prog.ModulePath+"/directive" {
+					seen[g.Obj] = true
+					fns = append(fns, g)
+				}
+			}
+		}
+	}
+	n := 0
+	for _, f := range fns {
+		ast.Inspect(f.Decl.Body, func(nd ast.Node) bool {
+			switch x := nd.(type) {
+			case *ast.CallExpr:
+				cal := callee(f.Pkg, x)
+				if cal == nil {
+					return true
+				}
+				sig := cal.Type().(*types.Signature)
+				if sig.Recv() == nil {
+					return true
+				}
+				if _, isPtr := sig.Recv().Type().(*types.Pointer); isPtr && namedType(sig.Recv().Type()) == dirT {
+					n++
+					r.Bad(rule, f.Name()+" | "+exprString(x.Fun), "a directive is written while the catalog is built ("+cal.Name()+"): the copies that PASTE makes of one macro directive share their parameter maps, so the next call of the macro sees the change (and a second build pass would too)", c.pos(x.Pos()))
+				}
+			case *ast.AssignStmt:
+				for _, l := range x.Lhs {
+					sel, ok := ast.Unparen(l).(*ast.SelectorExpr)
+					if !ok {
+						continue
+					}
+					if fv := fieldSel(f.Pkg, sel); fv != nil && namedType(f.Pkg.TypesInfo.TypeOf(sel.X)) == dirT {
+						// a field of a local copy (a value of type Directive declared in the function) is the function's own
+						if id, isId := ast.Unparen(sel.X).(*ast.Ident); isId {
+							if o, isVar := f.Pkg.TypesInfo.Uses[id].(*types.Var); isVar && paramIndexOf(f, id) < 0 {
+								if _, isPtr := o.Type().(*types.Pointer); !isPtr {
+									continue
+								}
+							}
+						}
+						n++
+						r.Bad(rule, f.Name()+" | "+exprString(l)+" =", "a field of a directive is assigned while the catalog is built: the directive tree is shared by everything that reads it afterwards (and, through the shared maps and coordinates, by the other copies of a pasted macro)", c.pos(x.Pos()))
+					}
+				}
+			}
+			return true
+		})
+	}
+	if n == 0 {
+		r.Ok(rule, "handlers", fmt.Sprintf("%d functions reachable from the handlers: none writes a directive", len(fns)), "")
+	}
 }
